@@ -127,7 +127,7 @@ def targets(names):
     def one(name):
         d = os.path.join(VERIF, "seeded", name)
         meta = json.load(open(os.path.join(d, "meta.json")))
-        pid = meta["property"]
+        pid = meta.get("target_override", meta["property"])   # a seed that lies outside its own property's quantifier but inside another's
         wt = "/tmp/tg_" + name
         sh("git -C /repo worktree remove --force %s" % wt)
         sh("git -C /repo worktree add -q --detach %s HEAD" % wt)
